@@ -3447,11 +3447,22 @@ def commit_tree_changes(
         else:
             nested_changes.setdefault(dirname, []).append((subpath, new_mode, new_sha))
     for name, subchanges in nested_changes.items():
+        orig_subtree_id: ObjectID | Tree
         try:
-            orig_subtree_id: ObjectID | Tree = tree_obj[name][1]
+            orig_mode, orig_sha = tree_obj[name]
         except KeyError:
             # For new directories, pass an empty Tree object
             orig_subtree_id = Tree()
+        else:
+            if stat.S_ISDIR(orig_mode):
+                orig_subtree_id = orig_sha
+            elif all(new_sha is None for _, _, new_sha in subchanges):
+                # name is (now) a file, symlink or gitlink, e.g. because this
+                # change list replaced the directory: nothing to delete below
+                continue
+            else:
+                # a non-directory replaced by a directory
+                orig_subtree_id = Tree()
         subtree_id = commit_tree_changes(object_store, orig_subtree_id, subchanges)
         subtree = object_store[subtree_id]
         assert isinstance(subtree, Tree)
